@@ -96,6 +96,10 @@ class Gen:
         elif fields == "dotted":
             attr.append("fields(http.status = 200, who = %a)")
             custom = ["http.status", "who"]
+        elif fields == "dotted_leaf":
+            # the last segment of the dotted name is a parameter name: the parameter itself must still be recorded
+            attr.append("fields(req.a = 1)")
+            custom = ["req.a"]
         ret_level = err_level = None
         if ret:
             mode, ret_level = ret
@@ -145,7 +149,7 @@ def one(g, rng, rk=None, body_i=None, is_async=None):
     target = pick(rng, [None, None, "tgt::x"])
     idents = ["a"] + [i for k in args for i in ARGS[k][1]]
     skips = [i for i in idents if rng.random() < 0.25]
-    fields = pick(rng, [None, None, "expr", "lit", "shadow", "dotted"])
+    fields = pick(rng, [None, None, "expr", "lit", "shadow", "dotted", "dotted_leaf"])
     if fields in ("expr", "dotted") and "a" in skips:
         pass    # field expressions may still use skipped arguments
     ret = None
@@ -178,7 +182,7 @@ def canonical(g):
         g.add("value", 1, True, [k], None, None, None, ARGS[k][1], None, None, None)
     g.add("value", 2, False, list(ARGS), "warn", "all args", "tgt::all", ["b"], "lit", (None, None), None)
     g.add("result", 0, True, list(ARGS), "error", None, None, ["a", "x"], "shadow", None, (None, None))
-    for f in ("expr", "lit", "shadow", "dotted"):
+    for f in ("expr", "lit", "shadow", "dotted", "dotted_leaf"):
         g.add("value", 0, False, ["b"], None, None, None, [], f, None, None)
         g.add("unit", 0, True, [], None, None, None, [], f, None, None)
 
